@@ -184,6 +184,17 @@ pub fn gen_case(rng: &mut Rng) -> Case {
                     0 => pick_existing(rng, &sim).map(|e| format!("{e}/{}", rng.pick(NAMES))),
                     1 => pick_existing(rng, &sim),
                     2 => existing.first().map(|e| format!("{e}/{}/{}", rng.pick(NAMES), rng.pick(NAMES))),
+                    // several levels below a path that holds (or held, before an earlier operation of
+                    // this patch freed it) a file: the rollback has to take a whole subtree down again
+                    3 => pick_existing(rng, &files).map(|e| {
+                        let depth = rng.range(3, 5);
+                        let mut p = e;
+                        for _ in 0..depth {
+                            p.push('/');
+                            p.push_str(*rng.pick(NAMES));
+                        }
+                        p
+                    }),
                     _ => None,
                 }
                 .unwrap_or_else(|| gen_path(rng, 3));
